@@ -1,6 +1,8 @@
 """props/C07.py — descriptor for property C07 (experience and learned models mirror the history)."""
 REPO_SRCS = ["src/MDP/Experience.cpp", "src/MDP/SparseExperience.cpp", "src/Bandit/Experience.cpp",
-             "src/Seeder.cpp"]
+             "src/Seeder.cpp", "src/Factored/MDP/CooperativeExperience.cpp",
+             "src/Factored/MDP/CooperativeMaximumLikelihoodModel.cpp", "src/Factored/Utils/BayesianNetwork.cpp",
+             "src/Factored/Utils/Core.cpp", "src/Factored/Utils/FactoredMatrix.cpp"]
 # Eigen's documented debugging switch: storage the library never writes reads back as NaN, so an
 # uninitialised model cell is observable deterministically (DESIGN §6, C07/C10 row).
 EXTRA_CXXFLAGS = ["-DEIGEN_INITIALIZE_MATRICES_BY_NAN"]
@@ -134,6 +136,41 @@ def gen_bandit(rng):
     return "bandit %d %d %s" % (A, n, " ".join(ops))
 
 
+def gen_coop(rng, maxops=60):
+    nf = rng.randint(1, 3); na = rng.randint(1, 2)
+    S = [rng.randint(2, 3) for _ in range(nf)]; A = [rng.randint(2, 3) for _ in range(na)]
+    def L(xs): return "%d %s" % (len(xs), " ".join(map(str, xs)))
+    parts = ["coop", L(S), L(A)]
+    for i in range(nf):
+        ag = sorted(rng.sample(range(na), rng.randint(1, na)))
+        n = 1
+        for x in ag: n *= A[x]
+        parts.append(L(ag)); parts.append(str(n))
+        for _ in range(n):
+            parts.append(L(sorted(rng.sample(range(nf), rng.randint(1, nf)))))
+    ops = []; nm = 0
+    rews = rng.sample(REW, rng.randint(2, 6))
+    n = rng.randint(3, maxops)
+    pool = [([rng.randrange(x) for x in S], [rng.randrange(x) for x in A]) for _ in range(rng.randint(1, 4))]
+    while len(ops) < n:
+        u = rng.random()
+        if u < 0.6 or (nm == 0 and u < 0.75):
+            s, a = rng.choice(pool) if rng.random() < 0.8 else ([rng.randrange(x) for x in S], [rng.randrange(x) for x in A])
+            s1 = [rng.randrange(x) for x in S]
+            ops.append("r %s %s %s %s" % (" ".join(map(str, s)), " ".join(map(str, a)), " ".join(map(str, s1)),
+                                          " ".join(rng.choice(rews) for _ in S)))
+            if nm and rng.random() < 0.5: ops.append("ci %d" % rng.randrange(nm))
+        elif u < 0.68: ops.append("z")
+        elif u < 0.76: ops.append("d")
+        elif u < 0.84 and nm < 2: ops.append("cm %d" % rng.randint(0, 1)); nm += 1
+        elif nm and u < 0.90: ops.append("cy %d" % rng.randrange(nm))
+        elif nm:
+            s, a = rng.choice(pool)
+            ops.append("cp %d %s %s" % (rng.randrange(nm), " ".join(map(str, s)), " ".join(map(str, a))))
+    ops.append("d")
+    return " ".join(parts) + " %d %s" % (len(ops), " ".join(ops))
+
+
 def gen(rng, tier):
     out = []
     nshort = {"quick": 300, "thorough": 1200, "search": 600}[tier]
@@ -143,6 +180,8 @@ def gen(rng, tier):
         out.append(gen_mdp(rng, L, strict=(rng.random() < 0.75), kinds=kinds))
     for i in range(nshort // 10):
         out.append(gen_svt(rng)); out.append(gen_bandit(rng))
+    for i in range(nshort // 3):
+        out.append(gen_coop(rng))
     # histories crossing the forced-resync threshold (visitSum % 10000 == 0)
     if tier == "quick":
         out.append(gen_cross(rng))
